@@ -120,8 +120,12 @@ def gen_world(rs: int, P: dict) -> dict:
     r = sub(rs, "shape")
     n_st = r.randint(*P["stations"])
     names = STATION_NAMES[:n_st]
-    if r.random() < 0.3:
+    nm_ = r.random()
+    if nm_ < 0.3:
         names = ["CA-%d" % (300 + 7 * i) for i in range(n_st)]
+    elif nm_ < 0.4:
+        # unusual but valid ids: numeric-looking strings, ids that are prefixes of each other, separators, spaces, non-ASCII, long
+        names = ["1", "01", "10", "A", "AA", "A-1", "A/1", "a b", "\u00c4", "x" * 30, "0", "-1"][:n_st]
     party_kind = wchoice(r, P["party"])
     sorted_party = party_kind in ("greedy", "rr")
     stations = []
@@ -203,6 +207,11 @@ def gen_world(rs: int, P: dict) -> dict:
         "signals": wchoice(rsim, P["signals"]),
         "shuffle_events": rsim.randint(0, 10 ** 6),
     }
+    ropt = sub(rs, "simopts")
+    if ropt.random() < 0.06:
+        sim["verbose"] = True          # rarely used public option (progress output goes to a sink)
+    if ropt.random() < 0.06:
+        sim["iface_sub"] = True        # interface_type: a user subclass of Interface that adds nothing
 
     ra = sub(rs, "aware_start")
     if P.get("aware_start", 0) and ra.random() < P["aware_start"]:
@@ -386,6 +395,8 @@ def _mk_session(rs, sid, station, a, d, stations, period, P):
     s = {"session_id": sid, "station": station, "arrival": a, "departure": d, "energy": energy, "battery": b}
     if rb.random() < P["est_dep_diff"]:
         s["est_departure"] = max(a + 1, d + rb.randint(-3, 3))
+        if rb.random() < 0.1:
+            s["est_departure"] = d + rb.choice([50, 500])      # a driver who badly over-estimates the stay
     return s
 
 
